@@ -1,4 +1,4 @@
-import Nstd.Avl.LemmasHeapInsert7
+import Nstd.Avl.LemmasHeapInsert8
 /-
   Property C01 — tie by translation, composed: the COMPLETE private insert and the public plain insert.
 
@@ -97,7 +97,8 @@ theorem gen_insert_private_map_eq_model (s : St) (h : Heap) (ctx0 : Ctx) (t : Tr
     (hplug : ctx0.plug t = s.t) (hc0 : ReprCtx h ctx0) (ht : Repr h (h.get ctx0.cell) ctx0.par t)
     (hf : ctx0.depth + t.height < fuel) :
     let r := s.insertIn k ctx0.mcell t (fun id => (ctx0.climb (Tree.ins id k v t)).1) c0
-    ∃ h' p, Map.insertPrivate fuel h c ctx0.cell ctx0.par k v = some (h', p, c + (r.2.cmps - c0)) ∧ ReprSt h' r.1 ∧
+    ∃ h' p, Map.insertPrivate fuel h c ctx0.cell ctx0.par k v = some (h', p, c + Tree.insCmps k t) ∧
+      r.2.cmps = c0 + Tree.insCmps k t ∧ ReprSt h' r.1 ∧
       h'.endItem = h.endItem ∧ ∃ q i, r.2.ret = .it q ∧ r.1.order[q]? = some i ∧ p = i + 1 := by
   intro r
   obtain ⟨ce, pe⟩ := cellOf_mcell ctx0
@@ -119,8 +120,7 @@ theorem gen_insert_private_map_eq_model (s : St) (h : Heap) (ctx0 : Ctx) (t : Tr
     have hic : ∀ j ∈ ctx0.ids, j + 1 ≠ i + 1 := by
       intro j hj e; have : i = j := by omega
       exact (List.nodup_append.mp hndt).2.2 i b3 j hj this
-    refine ⟨h.setValue (i + 1) v, i + 1, ?_, ?_, rfl, idxOf i s.order, i, ?_, ?_, rfl⟩
-    · rw [hr_def]; simp
+    refine ⟨h.setValue (i + 1) v, i + 1, by simp, by rw [hr_def], ?_, rfl, idxOf i s.order, i, ?_, ?_, rfl⟩
     · rw [hr_def]
       refine ⟨?_, ?_, hr.size, freeRepr_frame _ _ hr.free (fun _ _ => rfl), hr.blocks, hr.endSep⟩
       · show Repr (h.setValue (i + 1) v) h.root 0 (ctx0.climb (Tree.ins 0 k v t)).1
@@ -147,8 +147,7 @@ theorem gen_insert_private_map_eq_model (s : St) (h : Heap) (ctx0 : Ctx) (t : Tr
     rw [hm] at hle
     obtain ⟨h', l1, l2, l3⟩ := hle
     simp only [Nat.succ_ne_zero, if_false, show (1 : Nat) ≠ 0 from by omega]
-    refine ⟨h', s.alloc.1 + 1, ?_, ?_, l3, idxOf s.alloc.1 (threadIn s.order s.alloc.1 mc'), s.alloc.1, ?_, ?_, rfl⟩
-    · rw [l1, hr_def]; simp
+    refine ⟨h', s.alloc.1 + 1, l1, by rw [hr_def], ?_, l3, idxOf s.alloc.1 (threadIn s.order s.alloc.1 mc'), s.alloc.1, ?_, ?_, rfl⟩
     · rw [hr_def, ← g2]; exact l2
     · rw [hr_def]
     · rw [hr_def]; exact getElem_idxOf _ _ (mem_threadIn _ _ _)
@@ -160,7 +159,8 @@ theorem gen_insert_private_multi_eq_model (s : St) (h : Heap) (ctx0 : Ctx) (t : 
     (hplug : ctx0.plug t = s.t) (hc0 : ReprCtx h ctx0) (ht : Repr h (h.get ctx0.cell) ctx0.par t)
     (hf : ctx0.depth + t.height < fuel) :
     let r := s.insertIn k ctx0.mcell t (fun id => (ctx0.climb (Tree.insM id k v t)).1) c0
-    ∃ h' p, Multi.insertPrivate fuel h c ctx0.cell ctx0.par k v = some (h', p, c + (r.2.cmps - c0)) ∧ ReprSt h' r.1 ∧
+    ∃ h' p, Multi.insertPrivate fuel h c ctx0.cell ctx0.par k v = some (h', p, c + Tree.insMCmps k t) ∧
+      r.2.cmps = c0 + Tree.insMCmps k t ∧ ReprSt h' r.1 ∧
       h'.endItem = h.endItem ∧ ∃ q i, r.2.ret = .it q ∧ r.1.order[q]? = some i ∧ p = i + 1 := by
   intro r
   obtain ⟨ce, pe⟩ := cellOf_mcell ctx0
@@ -180,8 +180,7 @@ theorem gen_insert_private_multi_eq_model (s : St) (h : Heap) (ctx0 : Ctx) (t : 
   rw [hm] at hle
   obtain ⟨h', l1, l2, l3⟩ := hle
   simp only [show (1 : Nat) ≠ 0 from by omega, if_false]
-  refine ⟨h', s.alloc.1 + 1, ?_, ?_, l3, idxOf s.alloc.1 (threadIn s.order s.alloc.1 mc'), s.alloc.1, ?_, ?_, rfl⟩
-  · rw [l1, hr_def]; simp
+  refine ⟨h', s.alloc.1 + 1, l1, by rw [hr_def], ?_, l3, idxOf s.alloc.1 (threadIn s.order s.alloc.1 mc'), s.alloc.1, ?_, ?_, rfl⟩
   · rw [hr_def, ← g2]; exact l2
   · rw [hr_def]
   · rw [hr_def]; exact getElem_idxOf _ _ (mem_threadIn _ _ _)
@@ -209,19 +208,185 @@ theorem gen_insert_plain_eq_model (multi : Bool) (s : St) (h : Heap) (k v : Int)
   | false =>
     have := gen_insert_private_map_eq_model s h .top s.t k v c 0 fuel hm hT.avl hO hr hfresh rfl trivial hroot
       (by simp only [Ctx.depth]; omega)
-    simp only [Ctx.climb, Ctx.mcell, Ctx.cell, Ctx.par, Nat.sub_zero] at this
+    simp only [Ctx.climb, Ctx.mcell, Ctx.cell, Ctx.par] at this
     have e : s.insertRoot k v 0 = s.insertIn k none s.t (fun id => (Tree.ins id k v s.t).1) 0 := by
       unfold St.insertRoot St.insSub; simp only [hm, Bool.false_eq_true, if_false]
     rw [e]
-    exact this
+    obtain ⟨h', p, w1, w2, w3⟩ := this
+    exact ⟨h', p, by rw [w2, Nat.zero_add]; exact w1, w3⟩
   | true =>
     have := gen_insert_private_multi_eq_model s h .top s.t k v c 0 fuel hm hT.avl hO hr hfresh rfl trivial hroot
       (by simp only [Ctx.depth]; omega)
-    simp only [Ctx.climb, Ctx.mcell, Ctx.cell, Ctx.par, Nat.sub_zero] at this
+    simp only [Ctx.climb, Ctx.mcell, Ctx.cell, Ctx.par] at this
     have e : s.insertRoot k v 0 = s.insertIn k none s.t (fun id => (Tree.insM id k v s.t).1) 0 := by
       unfold St.insertRoot St.insSub; simp only [hm, if_true]
     rw [e]
-    exact this
+    obtain ⟨h', p, w1, w2, w3⟩ := this
+    exact ⟨h', p, by rw [w2, Nat.zero_add]; exact w1, w3⟩
+
+theorem ids_getElem?_of_inorder {t : Tree} {idx : Nat} {e : Nat × Int × Int} (he : t.inorder[idx]? = some e) :
+    (ids t)[idx]? = some e.1 := by
+  simp [ids, List.getElem?_map, he]
+
+/-- **`Map::insert(position, key, value)`, complete, by translation**: the neighbour tests of the current Map.hpp, then the
+    complete private insert in the cell they choose (under the hint on the left / right, under the last item, or at the
+    root), or the replacement of the hint's value.  For every reachable Map state `s`, every heap that represents it and
+    every iterator position `p ≤ size` (`p = size`: `end()`): the translated code terminates, leaves a heap that represents
+    the model's `step s (insertAt p k v)`, makes exactly the model's number of key comparisons and returns the item at
+    the returned position. -/
+theorem gen_insert_at_map_eq_model (s : St) (h : Heap) (p : Nat) (k v : Int) (c fuel : Nat)
+    (hreach : Reach false s) (hr : ReprSt h s) (hfresh : EndOutsideNextBlock h s) (hp : p ≤ s.size) (hf : s.t.height < fuel) :
+    ∃ s' out, step s (.insertAt p k v) = some (s', out) ∧
+    ∃ h' ptr, Map.insertAt fuel h c (headPtr h (s.order.drop p)) k v = some (h', ptr, c + out.cmps) ∧ ReprSt h' s' ∧
+      h'.endItem = h.endItem ∧ ∃ q i, out.ret = .it q ∧ s'.order[q]? = some i ∧ ptr = i + 1 := by
+  obtain ⟨hT, hO, hm⟩ := invs_reach hreach
+  have hsz : s.size = s.t.inorder.length := by rw [hT.size, size_eq_length]
+  have hord : s.order = s.t.inorder.map (fun e => e.1) := hO.order
+  have hstep : step s (.insertAt p k v) = s.insertAt p k v := by simp [step, hp]
+  rw [hstep, insertAt_is_hintGo]
+  have hH := gen_insert_hint_map_eq_model h s.t.inorder p k v c (by rw [← hord]; exact hr.list) (repr_keys hr.tree)
+    (fun e he => hr.endSep e.1 (Or.inl (by rw [hord]; exact List.mem_map_of_mem he))) (by omega)
+  have hH' : hintGo false s.t.inorder s.t.inorder.length p k = hintGo s.multi s.t.inorder s.size p k := by rw [hm, hsz]
+  rw [hH'] at hH
+  have hptr : headPtr h (s.order.drop p) = headPtr h ((s.t.inorder.drop p).map (fun e => e.1)) := by
+    rw [hord, List.map_drop]
+  unfold Map.insertAt
+  rw [hptr, hH]
+  cases hg0 : hintGo s.multi s.t.inorder s.size p k with
+  | none => rw [← hH'] at hg0; exact absurd hg0 (hintGo_some _ _ _ _ (by omega))
+  | some g =>
+    have hg : hintGo false s.t.inorder s.t.inorder.length p k = some g := by rw [hH']; exact hg0
+    cases g with
+    | under right idx hid c0 =>
+      obtain ⟨e, he1, he2⟩ := hintGo_under _ _ _ _ _ _ _ _ hg
+      have hidx : idx < s.t.size := by
+        rw [size_eq_length]; exact (List.getElem?_eq_some_iff.mp he1).1
+      obtain ⟨ctx0, hid', a1, a2, a3, a4, a5, a6, a7⟩ := ctx_of_idx h right s.t .top idx hidx trivial hr.tree
+      have : hid' = hid := by
+        rw [ids_getElem?_of_inorder he1, he2] at a5; exact (Option.some.inj a5).symm
+      subst this
+      obtain ⟨ce, pe⟩ := cellOf_mcell ctx0
+      rw [a4] at ce pe
+      have P := gen_insert_private_map_eq_model s h ctx0 (Tree.subAt right idx s.t) k v (c + c0) c0 fuel hm hT.avl hO hr hfresh a1 a2 a3
+        (by simp only [Ctx.depth] at a7; omega)
+      have em : s.insertIn k ctx0.mcell (Tree.subAt right idx s.t) (fun id => (ctx0.climb (Tree.ins id k v (Tree.subAt right idx s.t))).1) c0
+          = s.insertUnder right idx hid' k v c0 := by
+        unfold St.insertUnder St.insSub
+        rw [a4]; simp only [hm, Bool.false_eq_true, if_false]
+        congr 1
+        funext id
+        rw [a6 (Tree.ins id k v)]; rfl
+      rw [em, ← ce, ← pe] at P
+      obtain ⟨h', ptr, w1, w2, w3⟩ := P
+      refine ⟨_, _, rfl, h', ptr, ?_, w3⟩
+      show Map.insertPrivate fuel h (c + c0) (cellOf (some (hid', right))) (hid' + 1) k v =
+        some (h', ptr, c + (s.insertUnder right idx hid' k v c0).2.cmps)
+      rw [w2, ← Nat.add_assoc]; exact w1
+    | root c0 =>
+      have P := gen_insert_private_map_eq_model s h .top s.t k v (c + c0) c0 fuel hm hT.avl hO hr hfresh rfl trivial hr.tree
+        (by simp only [Ctx.depth]; omega)
+      have em : s.insertIn k Ctx.top.mcell s.t (fun id => (Ctx.top.climb (Tree.ins id k v s.t)).1) c0 = s.insertRoot k v c0 := by
+        unfold St.insertRoot St.insSub; simp only [hm, Bool.false_eq_true, if_false]; rfl
+      rw [em] at P
+      obtain ⟨h', ptr, w1, w2, w3⟩ := P
+      refine ⟨_, _, rfl, h', ptr, ?_, w3⟩
+      show Map.insertPrivate fuel h (c + c0) Cell.root 0 k v = some (h', ptr, c + (s.insertRoot k v c0).2.cmps)
+      rw [w2, ← Nat.add_assoc]; exact w1
+    | replace idx =>
+      obtain ⟨_, e1, e, he1, he2⟩ := hintGo_replace _ _ _ _ _ hg
+      subst e1
+      have hi := ids_getElem?_of_inorder he1
+      have hdrop : headPtr h (List.map (fun e => e.1) (List.drop idx s.t.inorder)) = e.1 + 1 := by
+        rw [List.drop_eq_getElem_cons (List.getElem?_eq_some_iff.mp he1).1, (List.getElem?_eq_some_iff.mp he1).2]; rfl
+      have hnd : (ids s.t).Nodup := (List.nodup_append.mp hO.nodup).1
+      refine ⟨_, _, rfl, h.setValue (e.1 + 1) v, e.1 + 1, ?_, ?_, rfl, idx, e.1, rfl, ?_, rfl⟩
+      · simp only [if_true, hdrop]
+      · refine ⟨setAt_repr h v e.1 s.t _ _ idx hr.tree hnd hi, dlist_frame _ _ _ hr.list rfl (fun _ _ => ⟨rfl, rfl⟩) rfl,
+          hr.size, freeRepr_frame _ _ hr.free (fun _ _ => rfl), hr.blocks, hr.endSep⟩
+      · show s.order[idx]? = some e.1
+        rw [hO.order]; exact hi
+
+/-- **`MultiMap::insert(position, key, value)`, complete, by translation**: the neighbour tests of the current MultiMap.hpp
+    (`>=` / `<=` towards the neighbours), then the complete private insert in the cell they choose (under the hint on the left /
+    right, under the last item, or at the root).  For every reachable MultiMap state `s`, every heap that represents it and
+    every iterator position `p ≤ size` (`p = size`: `end()`): the translated code terminates, leaves a heap that represents
+    the model's `step s (insertAt p k v)`, makes exactly the model's number of key comparisons and returns the item at
+    the returned position. -/
+theorem gen_insert_at_multi_eq_model (s : St) (h : Heap) (p : Nat) (k v : Int) (c fuel : Nat)
+    (hreach : Reach true s) (hr : ReprSt h s) (hfresh : EndOutsideNextBlock h s) (hp : p ≤ s.size) (hf : s.t.height < fuel) :
+    ∃ s' out, step s (.insertAt p k v) = some (s', out) ∧
+    ∃ h' ptr, Multi.insertAt fuel h c (headPtr h (s.order.drop p)) k v = some (h', ptr, c + out.cmps) ∧ ReprSt h' s' ∧
+      h'.endItem = h.endItem ∧ ∃ q i, out.ret = .it q ∧ s'.order[q]? = some i ∧ ptr = i + 1 := by
+  obtain ⟨hT, hO, hm⟩ := invs_reach hreach
+  have hsz : s.size = s.t.inorder.length := by rw [hT.size, size_eq_length]
+  have hord : s.order = s.t.inorder.map (fun e => e.1) := hO.order
+  have hstep : step s (.insertAt p k v) = s.insertAt p k v := by simp [step, hp]
+  rw [hstep, insertAt_is_hintGo]
+  have hH := gen_insert_hint_multi_eq_model h s.t.inorder p k v c (by rw [← hord]; exact hr.list) (repr_keys hr.tree)
+    (fun e he => hr.endSep e.1 (Or.inl (by rw [hord]; exact List.mem_map_of_mem he))) (by omega)
+  have hH' : hintGo true s.t.inorder s.t.inorder.length p k = hintGo s.multi s.t.inorder s.size p k := by rw [hm, hsz]
+  rw [hH'] at hH
+  have hptr : headPtr h (s.order.drop p) = headPtr h ((s.t.inorder.drop p).map (fun e => e.1)) := by
+    rw [hord, List.map_drop]
+  unfold Multi.insertAt
+  rw [hptr, hH]
+  cases hg0 : hintGo s.multi s.t.inorder s.size p k with
+  | none => rw [← hH'] at hg0; exact absurd hg0 (hintGo_some _ _ _ _ (by omega))
+  | some g =>
+    have hg : hintGo true s.t.inorder s.t.inorder.length p k = some g := by rw [hH']; exact hg0
+    cases g with
+    | under right idx hid c0 =>
+      obtain ⟨e, he1, he2⟩ := hintGo_under _ _ _ _ _ _ _ _ hg
+      have hidx : idx < s.t.size := by
+        rw [size_eq_length]; exact (List.getElem?_eq_some_iff.mp he1).1
+      obtain ⟨ctx0, hid', a1, a2, a3, a4, a5, a6, a7⟩ := ctx_of_idx h right s.t .top idx hidx trivial hr.tree
+      have : hid' = hid := by
+        rw [ids_getElem?_of_inorder he1, he2] at a5; exact (Option.some.inj a5).symm
+      subst this
+      obtain ⟨ce, pe⟩ := cellOf_mcell ctx0
+      rw [a4] at ce pe
+      have P := gen_insert_private_multi_eq_model s h ctx0 (Tree.subAt right idx s.t) k v (c + c0) c0 fuel hm hT.avl hO hr hfresh a1 a2 a3
+        (by simp only [Ctx.depth] at a7; omega)
+      have em : s.insertIn k ctx0.mcell (Tree.subAt right idx s.t) (fun id => (ctx0.climb (Tree.insM id k v (Tree.subAt right idx s.t))).1) c0
+          = s.insertUnder right idx hid' k v c0 := by
+        unfold St.insertUnder St.insSub
+        rw [a4]; simp only [hm, if_true]
+        congr 1
+        funext id
+        rw [a6 (Tree.insM id k v)]; rfl
+      rw [em, ← ce, ← pe] at P
+      obtain ⟨h', ptr, w1, w2, w3⟩ := P
+      refine ⟨_, _, rfl, h', ptr, ?_, w3⟩
+      show Multi.insertPrivate fuel h (c + c0) (cellOf (some (hid', right))) (hid' + 1) k v =
+        some (h', ptr, c + (s.insertUnder right idx hid' k v c0).2.cmps)
+      rw [w2, ← Nat.add_assoc]; exact w1
+    | root c0 =>
+      have P := gen_insert_private_multi_eq_model s h .top s.t k v (c + c0) c0 fuel hm hT.avl hO hr hfresh rfl trivial hr.tree
+        (by simp only [Ctx.depth]; omega)
+      have em : s.insertIn k Ctx.top.mcell s.t (fun id => (Ctx.top.climb (Tree.insM id k v s.t)).1) c0 = s.insertRoot k v c0 := by
+        unfold St.insertRoot St.insSub; simp only [hm, if_true]; rfl
+      rw [em] at P
+      obtain ⟨h', ptr, w1, w2, w3⟩ := P
+      refine ⟨_, _, rfl, h', ptr, ?_, w3⟩
+      show Multi.insertPrivate fuel h (c + c0) Cell.root 0 k v = some (h', ptr, c + (s.insertRoot k v c0).2.cmps)
+      rw [w2, ← Nat.add_assoc]; exact w1
+    | replace idx =>
+      have := (hintGo_replace _ _ _ _ _ hg).1
+      cases this
+
+/-- the translated `insert(position, key, value)` of one header -/
+def insertAtCode (multi : Bool) : Nat → Heap → Nat → Nat → Int → Int → Option (Heap × Nat × Nat) :=
+  if multi then Multi.insertAt else Map.insertAt
+
+/-- **`insert(position, key, value)` of both containers** — the two theorems above in one statement. -/
+theorem gen_insert_at_eq_model (multi : Bool) (s : St) (h : Heap) (p : Nat) (k v : Int) (c fuel : Nat)
+    (hreach : Reach multi s) (hr : ReprSt h s) (hfresh : EndOutsideNextBlock h s) (hp : p ≤ s.size) (hf : s.t.height < fuel) :
+    ∃ s' out, step s (.insertAt p k v) = some (s', out) ∧
+    ∃ h' ptr, insertAtCode multi fuel h c (headPtr h (s.order.drop p)) k v = some (h', ptr, c + out.cmps) ∧ ReprSt h' s' ∧
+      h'.endItem = h.endItem ∧ ∃ q i, out.ret = .it q ∧ s'.order[q]? = some i ∧ ptr = i + 1 := by
+  cases multi with
+  | false => exact gen_insert_at_map_eq_model s h p k v c fuel hreach hr hfresh hp hf
+  | true => exact gen_insert_at_multi_eq_model s h p k v c fuel hreach hr hfresh hp hf
 
 /-! ### non-vacuity -/
 
